@@ -11,6 +11,81 @@ GAP_FINDINGS = {"flattened": "F-flattened-schema", "mapkeys": "F-mapkeys-schema"
                 "patoverlap": "F-pattern-overlap"}
 
 
+GENERIC_SRC = '''
+from dataclasses import dataclass, field
+from typing import Dict, Generic, List, Optional, TypeVar
+from apischema import schema
+
+T = TypeVar("T")
+
+
+@schema(min_props=2, max_props=2)
+@dataclass
+class Pair(Generic[T]):
+    left: Optional[T] = None
+    right: Optional[T] = None
+    note: Optional[str] = None
+
+
+@schema(min_props=1)
+@dataclass
+class Wrap(Generic[T]):
+    items: List[T] = field(default_factory=list)
+
+
+@dataclass
+class Plain(Generic[T]):
+    x: T
+'''
+
+
+def generic_law(rep: common.Report) -> int:
+    """Beyond the universe (its encoding has no generic classes): class-level constraints of a Generic dataclass hold for
+    every parametrization; the law of the property itself on the real code: deserialize(G[X], d) accepts iff
+    deserialization_schema(G[X]) validates d."""
+    import sys
+    import types
+    from typing import List, Optional
+
+    import apischema.cache
+    import jsonschema
+    from apischema import ValidationError, deserialize
+    from apischema.json_schema import deserialization_schema
+
+    mod = types.ModuleType("verifgeneric6")
+    sys.modules["verifgeneric6"] = mod
+    exec(compile(GENERIC_SRC, "<verifgeneric6>", "exec"), mod.__dict__)
+    data = [{}, {"left": 1}, {"left": 1, "right": 2}, {"left": 1, "right": 2, "note": "n"}, {"left": "a", "right": "b"},
+            {"items": []}, {"items": [1]}, {"items": ["a"]}, {"x": 1}, {"x": "a"}, {"x": None}, [], [{}], [{"left": 1, "right": 2}],
+            [{"items": [1]}, {}], None, 3]
+    n = 0
+    for label, tp in (("Pair[int]", mod.Pair[int]), ("Pair[str]", mod.Pair[str]), ("Pair (bare)", mod.Pair), ("Wrap[int]", mod.Wrap[int]),
+                      ("Wrap[str]", mod.Wrap[str]), ("Plain[int]", mod.Plain[int]), ("List[Pair[int]]", List[mod.Pair[int]]),
+                      ("List[Wrap[int]]", List[mod.Wrap[int]]), ("Optional[Pair[int]]", Optional[mod.Pair[int]])):
+        apischema.cache.reset()
+        try:
+            sch = deserialization_schema(tp)
+            validator = jsonschema.Draft202012Validator(sch)
+        except Exception as exc:
+            rep.violation(f"generic law: deserialization_schema({label}) raised {type(exc).__name__}: {exc}", {"type": label})
+            continue
+        for d in data:
+            n += 1
+            try:
+                deserialize(tp, d)
+                acc = True
+            except ValidationError:
+                acc = False
+            except Exception as exc:
+                rep.violation(f"generic law: deserialize({label}, {json.dumps(d)}) raised {type(exc).__name__}", {"type": label, "data": d})
+                continue
+            if acc != validator.is_valid(d):
+                rep.violation(f"generic law: deserialize({label}, {json.dumps(d)}) {'accepts' if acc else 'rejects'} but "
+                              f"deserialization_schema({label}) {'rejects' if acc else 'accepts'} (class-level constraints of a generic class)",
+                              {"type": label, "data": d, "schema": sch, "deserialize_accepts": acc})
+    return n
+
+
 def main() -> int:
     import apischema.cache
     import jsonschema
@@ -132,6 +207,7 @@ def main() -> int:
         neg[gap] = r.violated
         if r.violated != "SchemaAgrees":
             raise tlc.MachineryError(f"negative model check: gap '{gap}' no longer violates SchemaAgrees")
+    rep.set("generic_class_law_cases", generic_law(rep))
     rep.set("negative_checks", neg)
     rep.set("states", states)
     rep.set("transitions", trans)
